@@ -18,6 +18,14 @@ ENGINES = [
 ]
 NA_REASONS = {}
 CHECKS = {
+    "C01": dict(
+        engine="E4 enum", category="exploration",
+        technique="grammar-directed exhaustive enumeration of git objects and BFS over setter/observer histories; independent reference serialiser + C git (hash-object, cat-file, mktree, commit-tree, mktag, fsck --strict) as oracles",
+        text=("Every tree of <=3 (thorough <=4) entries over collision-engineered names x modes, commits/tags over the product of interacting header factors (parents, identities, times, 12 zone spellings incl. -0000, "
+              "encoding, multi-line extra headers, mergetags, PGP/SSH signatures, 6 message shapes), blobs under every chunking, for SHA-1 and SHA-256 and for the Rust and Python tree code; every sequence of <=3-4 (thorough 4-5) "
+              "setter-or-observer calls on live objects compared with a fresh object built from the same values."),
+        note="Trusted: engines/refmodels/gitobjects.py (any disagreement with C git is a harness error), git 2.39.5. Extra headers in non-git order and zones with minutes >= 60 are outside the canonical grammar (informational classes).",
+    ),
     "C03": dict(
         engine="E4 enum + E6 sandbox", category="exploration",
         technique="bounded-exhaustive enumeration of (base,target) pairs and of all byte strings as deltas, every encoder x decoder pairing (Python, Rust, C git), observed in rlimit-ed child processes",
